@@ -5,3 +5,5 @@ DIR="$(cd "$(dirname "$0")" && pwd)"
 PY=/venv/bin/python; [ -x "$PY" ] || PY=python3
 "$PY" "$DIR/harness/translate.py" "${VERIF_REPO:-/repo}" "$DIR/lean/PcfgVerif/PcfgVerif/Generated" > /dev/null || true
 cd "$DIR/lean/PcfgVerif" && lake build
+# build every property module (and the driver) now, so that the first run of each check is incremental
+lake build driver $(for i in 01 02 03 04 05 06 07 08 09 10 11 12 13 14 15 16 17 18 19 20; do printf 'PcfgVerif.Properties.C%s ' $i; done)
